@@ -1,0 +1,53 @@
+//go:build verif
+
+// Verification hooks for the aggregation arithmetic (property C05). Add-only: with the build
+// tag off nothing changes.
+
+package intermediate
+
+import (
+	"github.com/vmware/go-ipfix/pkg/entities"
+)
+
+// VerifAggFlow is a read-only view of one entry of flowKeyRecordMap.
+type VerifAggFlow struct {
+	Key         FlowKey
+	ReadyToSend bool
+	Retries     int
+	Filled      bool
+	IsIPv4      bool
+	// Elements is the ordered element list of the aggregated record (the live elements:
+	// callers must not modify them).
+	Elements []entities.InfoElementWithValue
+}
+
+// VerifAggFlows returns a snapshot of the flow map (in no particular order).
+func (a *AggregationProcess) VerifAggFlows() []VerifAggFlow {
+	a.mutex.Lock()
+	defer a.mutex.Unlock()
+	out := make([]VerifAggFlow, 0, len(a.flowKeyRecordMap))
+	for k, v := range a.flowKeyRecordMap {
+		els := v.Record.GetOrderedElementList()
+		cp := make([]entities.InfoElementWithValue, len(els))
+		copy(cp, els)
+		out = append(out, VerifAggFlow{
+			Key:         k,
+			ReadyToSend: v.ReadyToSend,
+			Retries:     v.waitForReadyToSendRetries,
+			Filled:      v.areCorrelatedFieldsFilled,
+			IsIPv4:      v.isIPv4,
+			Elements:    cp,
+		})
+	}
+	return out
+}
+
+// VerifAggAddRecord is getFlowKeyFromRecord followed by addOrUpdateRecordInMap, i.e. the body of
+// AggregateMsgByFlowKey for one valid data record.
+func (a *AggregationProcess) VerifAggAddRecord(record entities.Record) error {
+	flowKey, isIPv4, err := getFlowKeyFromRecord(record)
+	if err != nil {
+		return err
+	}
+	return a.addOrUpdateRecordInMap(flowKey, record, isIPv4)
+}
